@@ -597,7 +597,7 @@ void ExpressionBuilder::expr_dot(const char* id)
                 type = type.subst(s, e);
             expr = expression_t::create_dot(expr, *i, position, type);
         }
-    } else if (type.is(PROCESS_VAR)) {
+    } else if (type.is(PROCESS_VAR) && expr.get_symbol() != symbol_t()) {
         symbol_t uid;
         // temporarily set the frame to that of its associated template
         if (dynamicFrames.find(expr.get_symbol().get_name()) == dynamicFrames.end()) {
